@@ -86,6 +86,13 @@ func Classify(rec any) (out Outcome) {
 		out.Kind = Condition
 		out.Class = string(tr.Hierarchy()[0])
 		out.Msg = slip.ObjectString(tr)
+		if inst, ok := rec.(slip.Instance); ok {
+			if mv, has := inst.SlotValue(slip.Symbol("message")); has && mv != nil {
+				if str, ok2 := mv.(slip.String); ok2 {
+					out.Msg = string(str)
+				}
+			}
+		}
 		if e, ok := rec.(error); ok {
 			out.Msg = e.Error()
 		}
